@@ -146,27 +146,34 @@ func (s *Spec) write(overwrite bool) error {
 	}
 
 	dir = filepath.Dir(s.path)
+	verifPoint("write.begin", s.path)
 	err = os.MkdirAll(dir, 0o755)
 	if err != nil {
 		return fmt.Errorf("failed to create Spec dir: %w", err)
 	}
+	verifPoint("write.mkdir", s.path)
 
 	tmp, err = os.CreateTemp(dir, "spec.*.tmp")
 	if err != nil {
 		return fmt.Errorf("failed to create Spec file: %w", err)
 	}
+	verifPoint("write.created", s.path, tmp.Name())
 	_, err = tmp.Write(data)
+	verifPoint("write.written", s.path, tmp.Name(), err)
 	_ = tmp.Close()
+	verifPoint("write.closed", s.path, tmp.Name())
 	if err != nil {
 		return fmt.Errorf("failed to write Spec file: %w", err)
 	}
 
 	err = renameIn(dir, filepath.Base(tmp.Name()), filepath.Base(s.path), overwrite)
+	verifPoint("write.renamed", s.path, tmp.Name(), err)
 
 	if err != nil {
 		_ = os.Remove(tmp.Name())
 		err = fmt.Errorf("failed to write Spec file: %w", err)
 	}
+	verifPoint("write.done", s.path, err)
 
 	return err
 }
